@@ -3,6 +3,7 @@ package main
 import (
 	"fmt"
 	"go/types"
+	"regexp"
 	"strings"
 
 	"golang.org/x/tools/go/ssa"
@@ -345,7 +346,7 @@ func (fx *fnExec) applyContract(dst *ssa.Call, ctr *FuncContract, name string, c
 		if !cl.inMode(fx.mode) || (portableOnly && !cl.Portable && !isModeNeutral(cl.E)) {
 			continue
 		}
-		if t, ok := fx.tryEvalCalleeClause(cl, env); ok {
+		if t, ok := fx.tryEvalCalleeClause(cl, env, callee, ctr); ok {
 			fx.assume(t)
 		}
 	}
@@ -675,15 +676,45 @@ func isModeNeutral(e Expr) bool {
 
 // tryEvalCalleeClause: a postcondition that names variables local to the callee (its state at exit) says nothing a
 // caller can use: it is checked on the callee and skipped at call sites.
-func (fx *fnExec) tryEvalCalleeClause(cl Clause, env *SpecEnv) (t Term, ok bool) {
+func (fx *fnExec) tryEvalCalleeClause(cl Clause, env *SpecEnv, callee *ssa.Function, ctr *FuncContract) (t Term, ok bool) {
 	defer func() {
 		if r := recover(); r != nil {
-			if ve, isVE := r.(vcError); isVE && strings.Contains(ve.msg, "unknown identifier") {
-				ok = false
-				return
+			if ve, isVE := r.(vcError); isVE && strings.Contains(ve.msg, "unknown identifier") && callee != nil {
+				// only names that ARE local variables of the callee are excused; anything else is a specification error
+				m := regexp.MustCompile(`unknown identifier "([^"]+)"`).FindStringSubmatch(ve.msg)
+				if m != nil && (calleeHasLocal(callee, m[1]) || ctrHasGhost(ctr, m[1])) {
+					ok = false
+					return
+				}
 			}
 			panic(r)
 		}
 	}()
 	return fx.evalClause(cl, env), true
+}
+
+func calleeHasLocal(fn *ssa.Function, name string) bool {
+	if i := strings.Index(name, "@"); i > 0 {
+		name = name[:i]
+	}
+	for _, b := range fn.Blocks {
+		for _, in := range b.Instrs {
+			if a, ok := in.(*ssa.Alloc); ok && a.Comment == name {
+				return true
+			}
+		}
+	}
+	return false
+}
+
+func ctrHasGhost(ctr *FuncContract, name string) bool {
+	if ctr == nil {
+		return false
+	}
+	for _, g := range ctr.Ghosts {
+		if g.Name == name {
+			return true
+		}
+	}
+	return false
 }
